@@ -231,12 +231,19 @@ pub fn clone_routes<T>(v: &Vec<RouteRef<T>>) -> (r: Vec<RouteRef<T>>)
 // `routes.extend(x)` is routed through this VERIFIED wrapper (R8 with a proved helper) so that the multiset fact is available by contract
 pub fn ext_routes<T>(routes: &mut Vec<RouteRef<T>>, other: Vec<RouteRef<T>>)
     ensures final(routes)@ == old(routes)@ + other@, ms_of(final(routes)@) == ms_of(old(routes)@).add(ms_of(other@)),
+        forall|x: RouteRef<T>| #[trigger] final(routes)@.contains(x) <==> old(routes)@.contains(x) || other@.contains(x),
 {
     broadcast use axiom_iter_seq_vec;
     let ghost a = routes@; let ghost b = other@;
     /* verbatim: routes.extend(matcher.match_request(request)); | routes.extend(self.any_host.match_request(request)); | routes.extend(routes_stored.clone()); | rules.extend(matcher.match_request(request)); | routes.extend(static_storage.values().cloned().collect::<Vec<Arc<Route<T>>>>()); | routes.extend(Trace::get_routes_from_traces(&trace.children)); */
     routes.extend(other);
-    proof { lemma_ms_add(a, b); }
+    proof { lemma_ms_add(a, b);
+        assert forall|x: RouteRef<T>| #[trigger] routes@.contains(x) <==> a.contains(x) || b.contains(x) by {
+            if routes@.contains(x) { let i = choose|i: int| 0 <= i < routes@.len() && routes@[i] == x; if i < a.len() { assert(a[i] == x); } else { assert(b[i - a.len()] == x); } }
+            if a.contains(x) { let i = choose|i: int| 0 <= i < a.len() && a[i] == x; assert(routes@[i] == x); }
+            if b.contains(x) { let i = choose|i: int| 0 <= i < b.len() && b[i] == x; assert(routes@[a.len() + i] == x); }
+        }
+    }
 }
 #[verifier::external_body] #[verifier::accept_recursive_types(T)] pub struct SubIp<T> { h: std::marker::PhantomData<T> }
 impl<T> SubIp<T> {
@@ -389,34 +396,57 @@ impl<T> SchemeMatcher<T> {
 //@@ rename MethodMatcher SubMethod
 //@@ item src/router/request_matcher/ip.rs :: struct IpMatcher
 //@@ unrename MethodMatcher
+// `routes.iter().any(|known| Arc::ptr_eq(known, &route))`: only the sound direction is assumed here (an identical handle is an equal one)
+#[verifier::external_body] pub fn outl_known<T>(routes: &Vec<RouteRef<T>>, route: &RouteRef<T>) -> (r: bool)
+    ensures r ==> routes@.contains(*route),
+{ /* verbatim: routes.iter().any(|known| Arc::ptr_eq(known, &route)) */ unimplemented!() }
+pub open spec fn seen_upto<T>(s: Seq<RouteRef<T>>, n: int, x: RouteRef<T>) -> bool { exists|i: int| 0 <= i < n && #[trigger] s[i] == x }
 pub type IpItem<'a, T> = (&'a RouteIp, &'a SubMethod<T>);
 pub open spec fn ip_contrib<T>(rem: Seq<IpItem<T>>, n: int, addr: IpAddr, request: Request, x: RouteRef<T>) -> bool {
     exists|i: int| 0 <= i < n && sat_ip(*#[trigger] rem[i].0, addr) && (*rem[i].1).answer(request).count(x) > 0
 }
 impl<T> IpMatcher<T> {
     // membership-exact: rules without ip trigger, plus the rules of every range bucket whose range test the client address satisfies
+    // (since the F7 repair the rules of a satisfied bucket are added one by one unless an identical handle is already in the answer)
     //@@ fn src/router/request_matcher/ip.rs :: impl <T>IpMatcher<T> / fn match_request -> r
     //@| opt r5:0
     //@| opt r6:0
+    //@| opt r5:1
+    //@| opt optloop:1
     //@| ensures forall|x: RouteRef<T>| r@.contains(x) <==> (self.no_matcher.answer(*request).count(x) > 0
     //@|     || (request.remote_addr matches Some(addr) && exists|ip: RouteIp| self.matchers@.contains_key(ip) && sat_ip(ip, addr) && #[trigger] self.matchers@[ip].answer(*request).count(x) > 0)),
     //@| attr #[verifier::loop_isolation(false)]
-    //@| entry broadcast use vstd::seq_lib::group_to_multiset_ensures; broadcast use vstd::std_specs::hash::group_hash_axioms; broadcast use axiom_routeip_key_model2;
+    //@| entry broadcast use vstd::seq_lib::group_to_multiset_ensures; broadcast use vstd::std_specs::hash::group_hash_axioms; broadcast use axiom_routeip_key_model2; broadcast use axiom_iter_seq_vec;
     //@| loopbefore 0: let ghost any0 = routes@; let ghost gm = self.matchers@; let ghost addr = *remote_addr;
     //@| loop 0: invariant 0 <= vf_it0_idx <= vf_it0_rem0.len(), vf_it0.remaining() == vf_it0_rem0.skip(vf_it0_idx), vf_it0_rem0.len() == gm.len(),
     //@|         forall|x: RouteRef<T>| #[trigger] routes@.contains(x) <==> (any0.contains(x) || ip_contrib(vf_it0_rem0, vf_it0_idx, addr, *request, x)),
     //@|     decreases gm.len() - vf_it0_idx,
     //@| loophead 0: let ghost r0 = routes@; let ghost k = vf_it0_idx - 1; let ghost rem = vf_it0_rem0;
     //@|     proof { assert(ip_cidr == rem[k].0 && matcher == rem[k].1); }
+    //@| loop 1: invariant 0 <= vf_it1_idx <= vf_it1_rem0.len(), vf_it1.remaining() == vf_it1_rem0.skip(vf_it1_idx), ms_of(vf_it1_rem0) == matcher.answer(*request), vf_it1_rem0.len() == matcher.answer(*request).len(),
+    //@|         forall|x: RouteRef<T>| #[trigger] routes@.contains(x) <==> (r0.contains(x) || seen_upto(vf_it1_rem0, vf_it1_idx, x)),
+    //@|     decreases matcher.answer(*request).len() - vf_it1_idx,
+    //@| loophead 1: let ghost r1 = routes@; let ghost j = vf_it1_idx - 1; let ghost ans = vf_it1_rem0;
+    //@|     proof { assert(route == ans[j]); }
+    //@| looptail 1: proof {
+    //@|     assert forall|x: RouteRef<T>| #[trigger] routes@.contains(x) <==> (r0.contains(x) || seen_upto(ans, j + 1, x)) by {
+    //@|         if routes@ != r1 { assert(routes@ =~= r1.push(route)); assert(routes@[r1.len() as int] == route); if r1.contains(x) { let i = choose|i: int| 0 <= i < r1.len() && r1[i] == x; assert(routes@[i] == x); } }
+    //@|         if seen_upto(ans, j + 1, x) { let i = choose|i: int| 0 <= i < j + 1 && ans[i] == x; if i < j { assert(seen_upto(ans, j, x)); } }
+    //@|         if seen_upto(ans, j, x) { let i = choose|i: int| 0 <= i < j && ans[i] == x; assert(0 <= i < j + 1 && ans[i] == x); }
+    //@|         if x == route { assert(0 <= j < j + 1 && ans[j] == x); }
+    //@|     }
+    //@| }
+    //@| loopend 1: proof {
+    //@|     let ans = vf_it1_rem0;
+    //@|     assert forall|x: RouteRef<T>| seen_upto(ans, ans.len() as int, x) <==> matcher.answer(*request).count(x) > 0 by {
+    //@|         if seen_upto(ans, ans.len() as int, x) { let i = choose|i: int| 0 <= i < ans.len() && ans[i] == x; assert(ans.contains(x)); }
+    //@|         if ans.contains(x) { let i = choose|i: int| 0 <= i < ans.len() && ans[i] == x; assert(seen_upto(ans, ans.len() as int, x)); }
+    //@|     }
+    //@|     assert(forall|x: RouteRef<T>| #[trigger] routes@.contains(x) <==> (r0.contains(x) || matcher.answer(*request).count(x) > 0));
+    //@| }
     //@| looptail 0: proof {
-    //@|     let other = routes@.subrange(r0.len() as int, routes@.len() as int);
     //@|     assert forall|x: RouteRef<T>| #[trigger] routes@.contains(x) <==> (any0.contains(x) || ip_contrib(rem, k + 1, addr, *request, x)) by {
-    //@|         if sat_ip(*ip_cidr, addr) {
-    //@|             assert(routes@ =~= r0 + other);
-    //@|             lemma_ms_add(r0, other);
-    //@|             assert(ms_of(routes@).count(x) == ms_of(r0).count(x) + ms_of(other).count(x));
-    //@|             assert(ms_of(other).count(x) == matcher.answer(*request).count(x));
-    //@|         }
+    //@|         assert(routes@.contains(x) <==> (r0.contains(x) || (sat_ip(*ip_cidr, addr) && matcher.answer(*request).count(x) > 0)));
     //@|         if ip_contrib(rem, k + 1, addr, *request, x) {
     //@|             let i = choose|i: int| 0 <= i < k + 1 && sat_ip(*#[trigger] rem[i].0, addr) && (*rem[i].1).answer(*request).count(x) > 0;
     //@|             if i < k { assert(ip_contrib(rem, k, addr, *request, x)); }
@@ -445,6 +475,7 @@ impl<T> IpMatcher<T> {
     //@|         }
     //@|     }
     //@| }
+    //@| outline `routes.iter().any(|known| Arc::ptr_eq(known, &route))` => `outl_known(&routes, &route)`
     //@| outline `routes.extend(matcher.match_request(request));` => `ext_routes(&mut routes, matcher.match_request(request));`
 }
 
